@@ -328,6 +328,20 @@ func (e *Env) evalT(s *Sexp) (string, types.Type, error) {
 			return "", nil, fmt.Errorf("(typeid %s): no such type", name)
 		}
 		return fmt.Sprintf("%d", vc.tid(t)), nil, nil
+	case "wrap64":
+		// (wrap64 X): X reduced to Go's int range exactly as the generator spells integer arithmetic in the real-number
+		// reading (identity in the bit-precise reading), so that a contract can name the very term the code computes
+		if len(s.List) != 2 {
+			return "", nil, fmt.Errorf("(wrap64 X)")
+		}
+		t, _, err := e.evalT(s.List[1])
+		if err != nil {
+			return "", nil, err
+		}
+		if vc.mode != Math {
+			return t, types.Typ[types.Int], nil
+		}
+		return vc.wrap(t, 64, true), types.Typ[types.Int], nil
 	case "goeq":
 		a, ty, err := e.evalT(s.List[1])
 		if err != nil {
